@@ -767,6 +767,8 @@ func (c *EvalCtx) call(v *ECall) SV {
 		return SV{t: app(SReal, "xf-val", argT(0))}
 	case "pl":
 		return SV{t: ifacePl(argT(0))}
+	case "allocmax":
+		return goInt(c.x.ghostInt(c.st, "alloc.max"))
 	case "arr":
 		return SV{t: sliceArr(argT(0))}
 	case "off":
